@@ -271,6 +271,14 @@ class QGen:
             self.labels.add("Range")
             self.nops += 1
             base = (f"Range({lo}, {hi})", "int")
+            if self.chance(1, 2):
+                # computed bounds (possibly lo > hi: an empty range)
+                self.noflat += 1
+                os_ = self.objseq(scope, 0)
+                self.noflat -= 1
+                if os_ is not None:
+                    self.labels.add("Range-computed-bound")
+                    base = (f"Range({lo}, {os_[0]}.Count())", "int")
         elif k == "selectmany":
             os_ = self.objseq(scope, fuel - 1)
             if os_ is not None:
@@ -357,6 +365,10 @@ class QGen:
         t, kind = self.num(scope, max(fuel - 1, 0))
         if k == "abs":
             self.labels.add("math")
+            if kind == "int":
+                # recorded finding: abs(int) is typed double but computes std::abs(int) -> a later '/' truncates
+                self.excluded["abs-of-int"] = self.excluded.get("abs-of-int", 0) + 1
+                return (f"(fabs({t}) + 1)", "double")
             return (f"(abs({t}) + 1)", "double")
         return (f"({t} * {t} + 1)", kind)
 
@@ -500,14 +512,17 @@ class QGen:
 
     def mathfn(self, scope, fuel) -> Tuple[str, str]:
         name = self.pick(self.f.math_names)
-        a, _ = self.num(scope, fuel - 1)
+        a, ka = self.num(scope, fuel - 1)
         self.labels.add("math")
+        if name == "abs" and ka == "int":
+            self.excluded["abs-of-int"] = self.excluded.get("abs-of-int", 0) + 1
+            name = "fabs"
         if name == "exp2small":
             return (f"exp2({a} / 64.0)", "double")
         if name == "sqrtabs":
-            return (f"sqrt(abs({a}))", "double")
+            return (f"sqrt(fabs({a}))", "double")
         if name == "log1pabs":
-            return (f"log1p(abs({a}))", "double")
+            return (f"log1p(fabs({a}))", "double")
         if name in ("atan2", "hypot", "fmax", "fmin", "copysign", "fdim"):
             b, _ = self.num(scope, fuel - 1)
             return (f"{name}({a}, {b})", "double")
